@@ -92,9 +92,11 @@ def main():
     # ---------------------------------------------------------------- names
     names, meta = [], []
     times = [10**9, 10**9 + 1, 1607202239, 2**31 - 1, 1999999999, 1234567890]
-    for t in times:
-        for ty in (b"M", b"G"):
-            for sfx in range(4096):
+    for ti, t in enumerate(times):
+        for sfx in range(4096):
+            # an M name and its G twin (same time and suffix) are converted back to back, in both orders:
+            # a conversion must not depend on what was converted just before
+            for ty in ((b"M", b"G") if (sfx + ti) % 2 == 0 else (b"G", b"M")):
                 names.append(name_bytes(ty, b"%010d" % t, b"%03X" % sfx)); meta.append(("wf", t))
     for _ in range(200000 if thorough else 10000):
         t = rng.randrange(10**9, 2**31)
@@ -140,6 +142,18 @@ def main():
             c.violation("name-injective", "two names share article id %s" % aid, {"cases": ["5|" + toks(n), "5|" + toks(list(seen[key]))], "got": aid})
         seen[key] = tuple(n)
     c.sample({"op": "name->aidu->name", "name": bytes(names[5][:18]).decode(), "aidu": o6[5], "articleid": vf.fmt_bytes(o8[5].split()[1:])})
+
+    # ---------------------------------------------------------------- the same conversions from 8 goroutines at once
+    conc = [(rng.randrange(2) << 44) | (rng.randrange(10**9, 2**31) << 12) | rng.randrange(4096) for _ in range(400)]
+    lc = ["7|" + " ".join(map(str, conc))]
+    oc = vf.run_impl(impl, "C13", lc, deadline_ms=60000)
+    c.count(len(conc) * 8 * 20, "concurrent conversions")
+    if oc[0].split()[0] != "0" or oc[0].split()[1] != "0":
+        f = oc[0].split()
+        which = conc[int(f[2])] if len(f) > 2 and f[0] == "0" and int(f[2]) >= 0 else None
+        c.violation("concurrent-conversion", "Aidu.ToFN / bbs.ToArticleID / ArticleID.ToRaw called from 8 goroutines at once: %s answers differ from the sequential ones or a conversion panicked (first: id %s)" % (f[1] if len(f) > 1 else "status " + f[0], which),
+                    {"cases": lc, "expected": "0 0 -1", "got": oc[0]})
+    c.nontrivial(("conc", len(conc)))
 
     # ---------------------------------------------------------------- client-supplied article id text of any length
     raw = [[]] + [[rng.choice(ALPHA) for _ in range(k)] for k in range(1, 13) for _ in range(20)]
